@@ -4,7 +4,7 @@ Import ListNotations.
 Require Import Grist.Model.MetaCascade Grist.Proofs.MetaCascade_base Grist.Proofs.MetaCascade_inv
   Grist.Proofs.MetaCascade_rm
   Grist.Proofs.MetaCascade_add Grist.Proofs.MetaCascade_add2 Grist.Proofs.MetaCascade_add3
-  Grist.Proofs.MetaCascade_add4 Grist.Proofs.MetaCascade_add6.
+  Grist.Proofs.MetaCascade_add4 Grist.Proofs.MetaCascade_add6 Grist.Proofs.MetaCascade_upd Grist.Proofs.MetaCascade_sumd.
 Open Scope Z_scope.
 
 Lemma cols_of_table_incl : forall m gb t, cols_of_table m gb t = true -> incl gb (cids m).
@@ -14,10 +14,10 @@ Proof.
   apply Z.eqb_eq in Hp. subst x. unfold cids. apply in_map. exact Hc.
 Qed.
 
-Lemma create_summary_inv : forall src v gb name gbkinds fkinds m m',
-  Inv m -> create_summary src v gb name gbkinds fkinds m = Ok m' -> Inv m'.
+Lemma create_summary_inv : forall src v gb name gbkinds fkinds dcopies m m',
+  Inv m -> create_summary src v gb name gbkinds fkinds dcopies m = Ok m' -> Inv m'.
 Proof.
-  intros src v gb name gbkinds fkinds m m' HI H. unfold create_summary in H.
+  intros src v gb name gbkinds fkinds dcopies m m' HI H. unfold create_summary in H.
   destruct ((src =? 0) || negb (mem src (tids m))) eqn:Es.
   { destruct (src =? 0); discriminate. }
   apply orb_false_iff in Es. destruct Es as [_ Es]. apply negb_false_iff in Es. apply mem_In in Es.
@@ -34,9 +34,9 @@ Proof.
       exists m, v. split; [reflexivity|]. split; [exact HI|]. split; [apply mem_In; exact Em|]. split; assumption. }
   destruct HB as [m1 [v1 [EB [HI1 [Hv1 [Hs1 Hg1]]]]]]. rewrite EB in H. unfold bind in H at 1. cbv beta iota in H.
   destruct (find_summary m1 src gb); [discriminate|].
-  destruct (add_summary_table name src gb gbkinds fkinds m1) as [[m2 t]| |] eqn:Ea; unfold bind in H; try discriminate.
+  destruct (add_summary_table_d name src gb gbkinds fkinds dcopies m1) as [[m2 t]| |] eqn:Ea; unfold bind in H; try discriminate.
   cbv beta iota in H.
-  destruct (add_summary_table_inv _ _ _ _ _ _ _ _ HI1 Hs1 Hg1 Ea) as [HI2 [Ht2 [V2 _]]].
+  destruct (add_summary_table_d_inv _ _ _ _ _ _ _ _ _ HI1 Hs1 Hg1 Ea) as [HI2 [Ht2 [V2 _]]].
   assert (Hv2 : Optref (m_views m2) v1) by (right; rewrite V2; exact Hv1).
   pose proof (add_section_inv [] t v1 false m2 HI2 Ht2 Hv2) as HI3.
   destruct (add_section_sec t v1 false m2) as [S3 [C3 _]].
@@ -44,7 +44,7 @@ Proof.
   inversion H; subst m'. clear H.
   apply add_fields_inv; [exact HI3|].
   intros c Hc. apply in_map_iff in Hc. destruct Hc as [cr [E Hcr]]. apply filter_In in Hcr. destruct Hcr as [Hcr Hp].
-  apply andb_true_iff in Hp. destruct Hp as [Hp _]. apply Z.eqb_eq in Hp.
+  apply andb_true_iff in Hp. destruct Hp as [Hp _]. apply andb_true_iff in Hp. destruct Hp as [Hp _]. apply Z.eqb_eq in Hp.
   exists (mkS s t v1 [] false), cr. split; [exact S3|]. split; [reflexivity|]. split; [exact Hcr|].
   split; [exact E | simpl; exact Hp].
 Qed.
